@@ -305,6 +305,12 @@ var errorPathTemplates = []struct {
 	{"try {\npanicwith(0)\nprobe(\"after\")\n} catch e {\nprobe(\"caught\")\n}", []string{vals.Encode("caught")}, ""},
 	{"try {\npanicwith(\"msg\")\nprobe(\"after\")\n} catch e {\nprobe(\"caught\")\n}", []string{vals.Encode("caught")}, ""},
 	{"try {\neachcb([1], func(x) {\npanicwith(\"\")\n})\nprobe(\"after\")\n} catch e {\nprobe(\"caught\")\n}", []string{vals.Encode("caught")}, ""},
+	// an error is an error whatever its Go type: a host function failing with context.DeadlineExceeded / Canceled (while the run's own
+	// context is alive) is caught by the nearest try like any other
+	{"try {\npanicctx(\"deadline\")\nprobe(\"after\")\n} catch e {\nprobe(\"caught\")\n} finally {\nprobe(\"finally\")\n}\nprobe(\"on\")", []string{vals.Encode("caught"), vals.Encode("finally"), vals.Encode("on")}, ""},
+	{"try {\npanicctx(\"canceled\")\n} catch e {\nprobe(\"caught\")\n}", []string{vals.Encode("caught")}, ""},
+	{"func f() {\nfor i = 0; i < 2; i++ {\ntry {\npanicctx(\"wrapped\")\n} catch e {\nprobe(i)\n}\n}\n}\nf()", []string{"(i 0)", "(i 1)"}, ""},
+	{"x = (panicctx(\"deadline\") ?? \"dflt\")\nprobe(x)", []string{vals.Encode("dflt")}, ""},
 	// an error raised by the LOW bound of a slice expression / slice assignment is not lost behind the high bound
 	{"a = [1, 2, 3]\nhi = 2\nfunc low() {\nthrow \"low\"\n}\ntry {\nx = a[low():hi]\nprobe(\"after\")\n} catch e {\nprobe(\"caught\")\n}", []string{vals.Encode("caught")}, ""},
 	{"a = [1, 2, 3]\nhi = 2\ntry {\nx = a[nosuch:hi]\nprobe(\"after\")\n} catch e {\nprobe(\"caught\")\n}", []string{vals.Encode("caught")}, ""},
@@ -326,7 +332,7 @@ func streamErrors(o *Out, r *rand.Rand, n int, thorough bool) {
 			continue
 		}
 		res := runVM(stmt, -1, 3*time.Second)
-		if strings.Contains(c.src, "eachcb") || strings.Contains(c.src, "callcb0") || strings.Contains(c.src, "cbv") || strings.Contains(c.src, "panicwith") {
+		if strings.Contains(c.src, "eachcb") || strings.Contains(c.src, "callcb0") || strings.Contains(c.src, "cbv") || strings.Contains(c.src, "panicwith") || strings.Contains(c.src, "panicctx") {
 			o.Sum.Evaluations++ // host callbacks are not part of the model: implementation-side oracle only
 		} else {
 			o.Case(fmt.Sprintf("(run %d _ %s)", modelFuel, astser.Prog(stmt)), res.line, c.src, true)
